@@ -95,7 +95,8 @@ def generate(rng, tier, index):
             # the resume is delivered only once the simulation really is paused (a pause that arrives while the run is not in
             # RUNNING state is ignored by the server, and an unconditional second toggle would then pause the run for good)
             clients.append(dict(kind="resume", frac=frac, window=3, after_prev=True))
-    return dict(part="B", config=cfg, tmax=tmax, exact=exact, clients=clients, sched=sched)
+    # a user heartbeat that updates the simulation in two phases (the loop must not let a request see the state in between)
+    return dict(part="B", config=cfg, tmax=tmax, exact=exact, clients=clients, sched=sched, hb2=rng.derive("hb2").chance(0.4))
 
 
 def shrink(case, still_fails, viol=None):
@@ -217,7 +218,7 @@ def execute(case, ctx):
     with rb.quiet():
         ref = simgen.build(rebound, rb, cfg)
         rb.hb_reset()
-        rb.hb_attach(ref)
+        (rb.hb_attach_twophase if case.get("hb2") else rb.hb_attach)(ref)
         SL.begin(sc["seed"], SL.POL_NONE, tick_cap=2**62)      # the serverless reference run is not under test: no tick cap to speak of
         try:
             ref.integrate(tmax, exact_finish_time=exact)
@@ -237,7 +238,7 @@ def execute(case, ctx):
     with rb.quiet():
         sim = simgen.build(rebound, rb, cfg)
         rb.hb_reset()
-        rb.hb_attach(sim)
+        (rb.hb_attach_twophase if case.get("hb2") else rb.hb_attach)(sim)
         SL.begin(sc["seed"], sc["policy"], sc["p"], sc["bias_p"], tick_cap=max(2000000, 400 * H))
         if sc.get("stall_p"):
             SL.set_stall(sc["stall_p"], sc["stall_us"])
